@@ -19,6 +19,9 @@ let dispatch (f : string array) : string option =
   | "go_clean" -> Some (out_outcome out_str (api_go_clean (a 1)))
   | "clean_spec" -> Some (out_str (api_clean_spec (a 1)))
   | "normal_form" -> Some (out_bool (api_normal_form_b (a 1)))
+  | "relative" -> Some (out_str (api_relative (a 1) (a 2)))
+  | "relative_spec" -> Some (out_str (api_relative_spec (a 1) (a 2)))
+  | "relative_check" -> Some (out_bool (api_relative_check (a 1) (a 2) (a 3)))
   | "is_absolute" -> Some (out_bool (api_is_absolute (a 1)))
   | _ -> Extra.dispatch f
 
